@@ -1388,14 +1388,14 @@ func main() {
 			}
 			c.Fail("parse-mismatch", what, js)
 		}
-		for i := 0; i < c.Scale(200, 5000); i++ {
+		for i := 0; i < c.Scale(160, 5000); i++ {
 			r := c.Rng.Fork()
 			shape := lib.Pick(r, []int{0, 0, 0, 0, 1, 2})
 			d := genXMLDatum(r, shape, r.Chance(1, 5))
 			c.HistN("xml_shape", shape)
 			parseCase(d, "x"+d.Text)
 		}
-		for i := 0; i < c.Scale(110, 3000); i++ {
+		for i := 0; i < c.Scale(90, 3000); i++ {
 			r := c.Rng.Fork()
 			parseCase(genGoDatum(r, r.Chance(1, 6)), "g"+fmt.Sprint(i))
 		}
@@ -1416,7 +1416,7 @@ func main() {
 				judge(c, "in-process", sc, n, ok)
 			}
 		}
-		for i := 0; i < c.Scale(220, 6000); i++ {
+		for i := 0; i < c.Scale(160, 6000); i++ {
 			r := c.Rng.Fork()
 			if r.Chance(1, 4) {
 				flakeCase(genWildScenario(r, "wild"+strconv.Itoa(i)))
@@ -1428,7 +1428,7 @@ func main() {
 		// --- 6. the same through the real binary
 		if plz := os.Getenv("VERIF_PLZ"); plz != "" {
 			scs := []Scenario{}
-			for i := 0; i < c.Scale(30, 300); i++ {
+			for i := 0; i < c.Scale(24, 300); i++ {
 				r := c.Rng.Fork()
 				if i%5 == 4 {
 					sc := genWildScenario(r, "w"+strconv.Itoa(i))
